@@ -254,6 +254,7 @@ pub fn run_shared(ctx: &Ctx, sub: &str, which: &[&str]) -> SubReport {
                 acc.nontrivial += 1;
                 if do16 {
                     oracle_offsets(sub, &p, rank, &case, acc);
+                    oracle_payload_start(sub, &p, rank, &case, acc);
                 }
                 oracle_file_api(sub, &it.bytes, rank, &case, acc);
                 acc.sample(rank, || json!({"corpus_item": it.desc["spec"]["name"], "history": it.desc["history"], "bytes": it.bytes.len()}));
